@@ -1053,6 +1053,39 @@ fn span_boundary_case(ctx: &mut Ctx, span: usize, bes: &[&str]) {
     }
 }
 
+/// A sparse stretch inside a dense sequence: `off + stride * i` for i < 1024, then a run of equal
+/// values long enough for l = 0, so that element i of the stretch is the one at bit
+/// `off + (stride + 1) * i` of the upper bits: an inventory entry of 512 ones then spans exactly
+/// `stride + 1` blocks of 512 bits (the 16..=127-block class of Select9's subinventories for
+/// stride >= 15) and ends inside a block when `off` is not a multiple of 512.
+fn stretch_case(ctx: &mut Ctx, stride: usize, off: usize, bes: &[&str]) {
+    let mut xs: Vec<usize> = (0..1024).map(|i| off + stride * i).collect();
+    let last = *xs.last().unwrap();
+    xs.extend(std::iter::repeat(last).take(last + 600));
+    let n = xs.len();
+    for be in bes {
+        ctx.case();
+        let mut s = fresh();
+        exec(ctx, &mut s, &format!("from_slice {}", fmt_list(xs.iter())));
+        exec(ctx, &mut s, &format!("build {}", be));
+        if s.xs.is_none() {
+            continue;
+        }
+        exec(ctx, &mut s, "len");
+        for i in (0..1040).step_by(37).chain(480..530).chain(1000..1030).chain([n - 1, n]) {
+            exec(ctx, &mut s, &format!("get {}", i));
+        }
+        exec(ctx, &mut s, "iter_from 500");
+        exec(ctx, &mut s, "into_iter_from 1010");
+        for q in [off, off + stride * 500 + 1, off + stride * 511, off + stride * 512 - 1, last, last + 1] {
+            for o in ["succ", "pred", "index_of"] {
+                exec(ctx, &mut s, &format!("{} {}", o, q));
+            }
+        }
+        ctx.shape(format!("stretch:{}:{}", stride, be));
+    }
+}
+
 fn directed(ctx: &mut Ctx) {
     // `EliasFano::estimate_size` (an associated function: no structure needed)
     {
@@ -1081,6 +1114,18 @@ fn directed(ctx: &mut Ctx) {
     } else {
         for span in [65535usize, 65536, 65537, 65538] {
             span_boundary_case(ctx, span, BACKENDS);
+        }
+    }
+    if ctx.tier == Tier::Quick {
+        let r = 7 + ctx.rng.usize_below(57);
+        for stride in [15usize, 31, r] {
+            let off = 1 + ctx.rng.usize_below(511);
+            stretch_case(ctx, stride, off, &["custom2"]);
+        }
+    } else {
+        for stride in 7..=64usize {
+            let off = if stride % 5 == 0 { 512 } else { 1 + ctx.rng.usize_below(511) };
+            stretch_case(ctx, stride, off, if stride % 8 == 7 { BACKENDS } else { &["custom2", "plain"] });
         }
     }
     // the example of the documentation (D7: pred above u; D8: iter_from(len))
